@@ -117,6 +117,30 @@ def gen_problem(rng, tier):
     return pb
 
 
+def extra_program_problems(rng):
+    """Larger boards for the program correspondence only (nothing is enumerated there): one non-square medium board and two
+    with more than 256 cells (a tall and a wide one); regions of varied shapes from the same random merging as on the small
+    boards (so now and then one very large region), givens between 1 and the region's size (a few too large or negative)."""
+    from . import _loop
+    return [_gen_large(rng, h, w) for h, w in _loop.big_shapes(rng)]
+
+
+def _gen_large(rng, h, w):
+    blocks = _random_partition(rng, h, w)
+    while len(blocks) in (1, h * w):                              # not the two degenerate partitions
+        blocks = _random_partition(rng, h, w)
+    num = [[0] * w for _ in range(h)]
+    dens = rng.choice([0.05, 0.15, 0.3])
+    corners = [(0, 0), (0, w - 1), (h - 1, 0), (h - 1, w - 1)]
+    for b in blocks:
+        v = rng.randint(1, len(b))                                # the number this region would hold
+        for y, x in b:
+            if rng.random() < dens or ((y, x) in corners and rng.random() < 0.5):
+                r = rng.random()
+                num[y][x] = v if r < 0.8 else len(b) + rng.randint(1, 2) if r < 0.9 else rng.choice([-1, -2])
+    return {"height": h, "width": w, "blocks": blocks, "num": num}
+
+
 def gen_malformed(rng):
     """Not used by harness/c11.py: instances outside the well-formed class, for the program correspondence of the
     exception behaviour (cells in no region -> `blocks[-1]` is used silently; overlapping regions; cells off the board;
